@@ -50,6 +50,37 @@ def rule(n, a, b, extra_pre=()):
         res.append((p, roots, wts))
     return zs, cons, paths, res
 
+def job_newton_step(n):
+    """inductive step over the Newton loop of the node computation: at its header the iterate z is replaced by an ARBITRARY value (z^2 != 1); one real iteration (Legendre recurrence, derivative, update) is executed.
+       The back edge carries z - P_n(z)/P_n'(z) (closed-form Legendre polynomials as oracle); the loop is left only when that correction is at most 1e-13 in magnitude - the certificate behind 'exact to rounding'."""
+    res = []; tag = 'newton-step/n%d' % n; Z0 = z3.Real('h_z'); info = {}
+    fns = [k for k in G['m'].funcs if 'Compute_Gauss_Legendre_Roots_and_Weights' in k]
+    if len(fns) != 1: return [ob(tag + '/function', 'broken', detail=str(fns))]
+    f = G['m'].funcs[fns[0]]; heads = [b for b in loop_headers(f) if any(I.op == 'phi' and I.dest.lstrip('%').split('.')[0] == 'z' for I in f.blocks[b])]
+    if len(heads) != 1: return [ob(tag + '/loop-state', 'undecided', key='C12/newton-step', detail='no unique loop header carrying z: %s' % heads)]
+    def handler(it, f_, blk, regs, st):
+        for I in f_.blocks[blk]:
+            if I.op == 'phi' and I.dest.lstrip('%').split('.')[0] == 'z': regs[I.dest] = Z0; info['z'] = I.dest
+        st.pc += [Z0 * Z0 != 1]
+    zs = [z3.Real('z%d' % i) for i in range((n + 1) // 2)]
+    _, paths = run('@verif_c12_rw', [n, A, B, lambda st: st.alloc(8 * n), lambda st: st.alloc(8 * n), lambda st: st.alloc(4)], cos_intercept(n, zs), pre=[A < B], limits=Limits(max_paths=400, feas_ms=3000, max_seconds=200), havoc={(fns[0], heads[0]): handler})
+    Pn = legendre(n, Z0); Pm = legendre(n - 1, Z0); num = Pn * (Z0 * Z0 - 1); den = n * (Z0 * Pn - Pm)            # P_n / P_n' = num / den
+    small = Abs(num) <= RV(1e-13) * Abs(den); mv = {'a': A, 'b': B, 'n': n, 'h_z': Z0, 'loop_step': 1}; nleave = nback = 0
+    for pi, p in enumerate(paths):
+        hyp = p.st.pc + alg_assumptions(p.st)
+        be = [e for e in p.st.events if e[0] == 'backedge']
+        if p.end is not None and p.end.kind == 'backedge' and not any(is_sym(be[-1][2][info['z']]) and be[-1][2][info['z']].eq(zz) for zz in zs):
+            nback += 1; zn = toR(be[-1][2][info['z']])
+            res.append(prove('%s/back-edge-is-the-newton-update[%d]' % (tag, pi), hyp + [den != 0], zn * den == Z0 * den - num, 60000, mv, key='C12/newton-step/update', tactic='nra', sample=(nback == 1)))
+        elif p.end is None or p.end.kind == 'backedge':
+            nleave += 1
+            res.append(prove('%s/leaves-only-with-a-correction-below-1e-13[%d]' % (tag, pi), hyp + [den != 0], small, 60000, mv, key='C12/newton-step/exit', tactic='nra'))
+        elif p.end.kind != 'cutoff':
+            res.append(prove('%s/no-%s[%d]' % (tag, p.end.kind, pi), hyp, z3.BoolVal(False), 20000, mv, key='C12/newton-step/' + p.end.kind, detail=str(p.end)))
+    res.append(ob(tag + '/coverage', 'discharged' if nleave and nback else 'broken', key='C12/coverage', detail='%d leaving, %d back-edge paths from the arbitrary iterate' % (nleave, nback)))
+    return res
+def Abs(x): return z3.If(x >= 0, x, -x)
+
 def job_rule(n, orient):
     res = []; tag = 'rule/n%d/%s' % (n, orient)
     pre = [A < B] if orient == 'fwd' else [A > B]
@@ -137,6 +168,7 @@ def jobs(ctx):
     module(ctx); J = []
     for n in BOUNDS[ctx.tier]['n']:
         J += [(job_rule, (n, 'fwd')), (job_rule, (n, 'rev')), (job_mirror, (n,)), (job_overloads, (n,))]
+        if n >= 2: J.append((job_newton_step, (n,)))
     J.sort(key=lambda j: -j[1][0])
     return J
 
@@ -159,6 +191,16 @@ def replay(ctx, o):
     if key == 'C12/length-mismatch-rejected':
         r = nat.call(so, 'verif_c12_gl_vrw', [('u32', m['nv']), ('dbl[]', [1.0] * max(m['nv'], 1)), ('u32', m['n']), ('dbl[]', [0.5] * m['n']), ('dbl[]', [1.0] * m['n'])])
         return r['status'] != 'exit', 'native Integrate_Gauss_Legendre(values[%d], rule[%d]): %s' % (m['nv'], m['n'], r.get('ret', r['status']))
+    if m.get('loop_step'):
+        # the model is an arbitrary Newton iterate, not an input: native confirmation = the computed nodes and weights on [-1,1] against numpy's Gauss-Legendre rule for several orders
+        import numpy as np
+        worst = (0.0, None)
+        for k in (2, 3, 4, 5, 8, 16, 33):
+            nr = nat.call(so, 'verif_c12_rw', [('u32', k), -1.0, 1.0, ('dbl[]', [0.0] * k), ('dbl[]', [0.0] * k), ('u32[]', [0])], restype='void')
+            if nr['status'] != 'ok': return True, 'native rule computation (n=%d) ended: %s' % (k, nr['status'])
+            xr, wr = np.polynomial.legendre.leggauss(k); e = max(max(abs(u - v) for u, v in zip(sorted(nr['arrays'][0]), xr)), max(abs(u - v) for u, v in zip(nr['arrays'][1], wr[np.argsort(np.argsort(nr['arrays'][0]))])))
+            if e > worst[0]: worst = (e, k)
+        return worst[0] > 1e-11, 'native Gauss-Legendre nodes/weights on [-1,1] against numpy: worst deviation %.3g (n = %s)' % (worst[0], worst[1])
     if n is None or 'a' not in m: return False, 'no model'
     a, b = q2f(m['a']), q2f(m['b'])
     if a == b: return False, 'degenerate interval in model'
